@@ -215,6 +215,10 @@ class Units:
     def call(self, n):
         fn = self.dn(n.func) or (n.func.attr if isinstance(n.func, ast.Attribute) else "")
         last = fn.split(".")[-1] if fn else (call_name(n) or "")
+        if last in ("arange", "range", "len") and (isinstance(n.func, ast.Name) or self.dn(n.func.value) in ("np", "numpy")):
+            for a in n.args:
+                self.u(a)
+            return ONE           # counts / indices are pure numbers
         if last in SAME_ALL and not (isinstance(n.func, ast.Attribute) and last in ("min", "max", "clip") and not n.args and self.dn(n.func.value) not in ("np", "numpy", "math")):
             args = list(n.args) + [k.value for k in n.keywords if k.arg in ("a_min", "a_max")]
             if len(args) == 1 and isinstance(args[0], (ast.List, ast.Tuple)):
@@ -228,7 +232,8 @@ class Units:
                 self.u(a)
             ru = self.u(n.func.value)
             if last == "astype" and n.args and (dotted(n.args[0]) in ("int", "np.int64", "np.int32") or
-                                                 (isinstance(n.args[0], ast.Constant) and str(n.args[0].value).startswith("int"))) and isinstance(ru, U):
+                                                 (isinstance(n.args[0], ast.Constant) and str(n.args[0].value).startswith(("int", "timedelta64", "datetime64", "m8", "M8", "<m8", "<M8")))) \
+                    and isinstance(ru, U):
                 self.ops += 1
                 if not ru.same(ONE):
                     self.issue(n, f"`{src(n, 50)}` casts a quantity in {ru} to an integer", "trunc-astype")
